@@ -189,7 +189,7 @@ func ZZC14Event() {
 // that hold only comments or blank lines. The same program is run with n and
 // with n+d iterations and the yields are counted.
 func ZZC14Density() {
-	loop := zzChoice("loop", 7)
+	loop := zzChoice("loop", 10)
 	body := []string{"    // wait\n", "\n    // wait\n\n", "    print \"x\"\n", "    nop\n", "    if true\n        // nothing\n    end\n"}[zzChoice("body", 5)]
 	n := 1 + zzChoice("n", 2)
 	d := 1 + zzChoice("d", 3)
@@ -213,9 +213,23 @@ func ZZC14Density() {
 			return pre + "for range {" + m + "}\n" + body + "end\n"
 		case 5:
 			return pre + "i := 0\nwhile i < " + ns + "\n    i = i + 1\n" + body + "end\n"
+		case 6: // recursion depth n: one more call, one more yield
+			return pre + "func r k:num\n    if k > 0\n        r k-1\n    end\nend\nr " + ns + "\n"
+		case 7: // the recursive call is an operand of a binary expression
+			return pre + "func r:num k:num\n    if k > 0\n        return 1 + (r k-1)\n    end\n    return 0\nend\nx := r " + ns + "\nx = x\n"
+		case 8: // calls as arguments, array elements and map values
+			args := ""
+			for k := 0; k < n; k++ {
+				args += " (one)"
+			}
+			return pre + "func one:num\n    return 1\nend\nx := [" + args + " ]\nx = x\n"
 		}
-		// 6: recursion depth n: one more call, one more yield
-		return pre + "func r k:num\n    if k > 0\n        r k-1\n    end\nend\nr " + ns + "\n"
+		// 9: calls in the condition of a loop that never runs and as operands of and / or
+		c := "true"
+		for k := 0; k < n; k++ {
+			c += " and (yes)"
+		}
+		return pre + "func yes:bool\n    return true\nend\nif " + c + "\n    nop\nend\n"
 	}
 	_, y1, _, err1 := zzRunStopped(mk(n), -1)
 	_, y2, _, err2 := zzRunStopped(mk(n+d), -1)
